@@ -499,7 +499,6 @@ func raceVerdict(prop string) *Fail {
 	return &Fail{Prop: prop, Oracle: "race-detector", Kind: "race", Site: site, Detail: "unsynchronised memory access reported by the Go race detector under the serialised schedule:\n" + fresh}
 }
 
-
 // harnessOnlyRace: in every report of the log excerpt, the innermost frame of
 // both racing accesses belongs to the harness.
 func harnessOnlyRace(log string) bool {
